@@ -1,6 +1,9 @@
 package h264
 
-import "github.com/cnotch/ipchub/zzverif/symapi"
+import (
+	"github.com/cnotch/ipchub/utils/bits"
+	"github.com/cnotch/ipchub/zzverif/symapi"
+)
 
 // VerifSpsDims: Width/Height equal H.264 7.4.2.1.1 (frame cropping with CropUnitX/Y from
 // chroma_format_idc, separate_colour_plane_flag and frame_mbs_only_flag).
@@ -68,4 +71,87 @@ func VerifSpsDimsTwin() {
 	sps.FrameCropRightOffset = symapi.Uint16("crop_right")
 	symapi.Assume(sps.FrameCropRightOffset < 8)
 	symapi.Assert(sps.Width() == 1920, "twin-cropping-ignored")
+}
+
+// verifBitW packs bits (possibly symbolic) MSB-first.
+type verifBitW struct {
+	buf []byte
+	n   int
+}
+
+func (w *verifBitW) bit(b byte) {
+	if w.n%8 == 0 {
+		w.buf = append(w.buf, 0)
+	}
+	w.buf[w.n/8] |= (b & 1) << uint(7-w.n%8)
+	w.n++
+}
+
+// se writes the Exp-Golomb code with `zeros` leading zeros whose info bits are the low
+// `zeros` bits of x, and returns the se(v) value it denotes.
+func (w *verifBitW) se(zeros int, x uint8) int {
+	for i := 0; i < zeros; i++ {
+		w.bit(0)
+	}
+	w.bit(1)
+	info := 0
+	for i := zeros - 1; i >= 0; i-- {
+		b := (x >> uint(i)) & 1
+		w.bit(b)
+		info |= int(b) << uint(i)
+	}
+	k := (1 << uint(zeros)) - 1 + info // codeNum
+	if k%2 == 1 {
+		return (k + 1) / 2
+	}
+	return -(k / 2)
+}
+
+// VerifScalingList: scaling_list() (H.264 7.3.2.1.1.1) consumes exactly the delta_scale
+// codes the standard says: nextScale = (lastScale + delta_scale + 256) % 256 and the list
+// ends at the first nextScale == 0. K symbolic deltas (any code length 1..15 bits) are
+// followed by zero deltas; what follows the list is then read from the right bit.
+func VerifScalingList() {
+	K := symapi.Param("K", 2)
+	idx := 0 // a 4x4 list (16 entries); with L=1 also an 8x8 list (64 entries)
+	if symapi.Param("L", 0) == 1 {
+		idx = symapi.Choose("list", 2) * 6
+	}
+	size := 16
+	if idx >= 6 {
+		size = 64
+	}
+	w := &verifBitW{}
+	var deltas, lens []int
+	for k := 0; k < K; k++ {
+		zeros := symapi.Choose("zeros", 9)
+		x := symapi.Uint8("info")
+		d := w.se(zeros, x)
+		symapi.Assume(d >= -128 && d <= 127)
+		deltas = append(deltas, d)
+		lens = append(lens, 2*zeros+1)
+	}
+	for len(deltas) < size {
+		w.bit(1) // delta_scale = 0
+		deltas = append(deltas, 0)
+		lens = append(lens, 1)
+	}
+	w.bit(1)
+	// the standard
+	want := 0 // bits consumed
+	last, next := 8, 8
+	for j := 0; j < size; j++ {
+		if next != 0 {
+			next = (last + deltas[j] + 256) % 256
+			want += lens[j]
+		}
+		if next != 0 {
+			last = next
+		}
+	}
+	var sps RawSPS
+	r := bits.NewReader(w.buf)
+	sps.scanList(r, idx)
+	symapi.Assert(r.Offset() == want, "scaling-list-consumes-the-standard-number-of-bits")
+	symapi.Reach("end")
 }
